@@ -222,6 +222,14 @@ func (e *Engine) loadTemplates(filtername string) error {
 		return errors.New("Can not preload all templates again")
 	}
 
+	loaded := false
+	defer func() {
+		if !loaded {
+			// bail out :( - also if compiling a template panics, so that a later load can succeed
+			atomic.StoreInt32(&e.templatesLoaded, 0)
+		}
+	}()
+
 	start := time.Now()
 
 	manifest, err := os.ReadFile(path.Join(e.Basedir, "manifest.json"))
@@ -231,7 +239,6 @@ func (e *Engine) loadTemplates(filtername string) error {
 
 	templates, err := e.compileDir(path.Join(e.Basedir, "template", "page"), "", filtername)
 	if err != nil {
-		atomic.StoreInt32(&e.templatesLoaded, 0) // bail out :(
 		return err
 	}
 
@@ -253,6 +260,7 @@ func (e *Engine) loadTemplates(filtername string) error {
 		}
 	}
 
+	loaded = true
 	e.Logger.Info("Compiled templates in ", time.Since(start))
 	return nil
 }
